@@ -13,8 +13,12 @@ keys/gcpkms/keys.go), from C10's (Model/RotateKms.lean) the version-name scheme 
 Cloud KMS (trusted description, the same as in Model/RotateKms.lean and harness/c10_kms_svc.go):
 * a key ring holds cryptoKeys in creation order; a cryptoKey holds versions numbered 1, 2, … in creation
   order, numbers are never reused; CreateCryptoKey creates version 1;
-* a new version is PENDING_GENERATION with a countdown `gen` (polls that still answer PENDING); a poll that
-  finds the countdown at 0 completes the generation (ENABLED);
+* a version made by CreateCryptoKeyVersion is created in the state the command's environment says
+  (`Env.created`): by default PENDING_GENERATION with a countdown `gen` (polls that still answer PENDING; a
+  poll that finds the countdown at 0 completes the generation: ENABLED), or directly in another state
+  (ENABLED: no generation phase; DISABLED; …); the response of CreateCryptoKeyVersion reports the state the
+  version is in (rotate.go never reads it; bootstrap.go's waitForKeyGen returns without polling when it
+  says ENABLED: `createAndWait`); version 1 of a new cryptoKey (CreateCryptoKey) is PENDING_GENERATION;
 * only an ENABLED version answers GetPublicKey / AsymmetricSign;
 * DestroyCryptoKeyVersion: ENABLED / DISABLED → DESTROY_SCHEDULED, refused in any other state;
 * external events (not commands of the tool): generation completes on its own (`Ext.settle`), an operator
@@ -82,12 +86,17 @@ def Svc.set (s : Svc) (n : KName) (v : Ver) : Svc :=
 structure Env where
   gen : Nat           -- countdown of the versions this command creates
   deadline : Bool     -- the command's context expires at the first PENDING_GENERATION answer
+  created : Option VSt := none   -- state CreateCryptoKeyVersion creates a version in (`none`: PENDING_GENERATION, countdown `gen`)
 deriving DecidableEq, Repr
 
-/-- CreateCryptoKeyVersion on an existing cryptoKey: the next number, PENDING_GENERATION -/
+/-- the state a version made by CreateCryptoKeyVersion is created in (and that the response reports) -/
+def Env.createdSt (e : Env) : VSt := e.created.getD (.pending e.gen)
+
+/-- CreateCryptoKeyVersion on an existing cryptoKey: the next number, in the state the environment creates
+    versions in (every version has key material) -/
 def Svc.create (e : Env) (s : Svc) (k : String) : Svc :=
   { s with count := fun x => if x = k then s.count k + 1 else s.count x,
-           ver := fun m => if m = ⟨k, s.count k + 1⟩ then ⟨.pending e.gen, s.next⟩ else s.ver m,
+           ver := fun m => if m = ⟨k, s.count k + 1⟩ then ⟨e.createdSt, s.next⟩ else s.ver m,
            next := s.next + 1 }
 
 /-- the name CreateCryptoKeyVersion hands out -/
@@ -136,6 +145,14 @@ def scanFrom (st : Nat → VSt) : Nat → Nat → Option Nat → Scan
 def scan (s : Svc) (k : String) : Scan :=
   scanFrom (fun i => (s.ver ⟨k, i⟩).st) (s.count k) 1 none
 
+/-- go: the `ErrNoKeyVersions` path of Manager.waitForKeyGen: CreateCryptoKeyVersion, then
+    `if version.GetState() == ENABLED { return }` on the RESPONSE, else waitForKeyVersionGen -/
+def createAndWait (e : Env) (s : Svc) (k : String) : Svc × Option KName :=
+  if e.createdSt = .enabled then (s.create e k, some (s.nextName k))
+  else
+    ((waitGen e (s.create e k) (s.nextName k)).1,
+     if (waitGen e (s.create e k) (s.nextName k)).2 then some (s.nextName k) else none)
+
 /-- go: Manager.waitForKeyGen.  A cryptoKey that is not there (or has no version) lists with total size 0:
     "new CryptoKey has missing initial version". -/
 def waitForKeyGen (e : Env) (s : Svc) (k : String) : Svc × Option KName :=
@@ -144,9 +161,7 @@ def waitForKeyGen (e : Env) (s : Svc) (k : String) : Svc × Option KName :=
     match scan s k with
     | .ret i => (s, some ⟨k, i⟩)
     | .cont (some i) => ((waitGen e s ⟨k, i⟩).1, if (waitGen e s ⟨k, i⟩).2 then some ⟨k, i⟩ else none)
-    | .cont none =>                                      -- ErrNoKeyVersions: CreateCryptoKeyVersion
-      ((waitGen e (s.create e k) (s.nextName k)).1,
-       if (waitGen e (s.create e k) (s.nextName k)).2 then some (s.nextName k) else none)
+    | .cont none => createAndWait e s k                  -- ErrNoKeyVersions: CreateCryptoKeyVersion
 
 /-- go: Manager.recreateCryptoKey (createNewHSMKey / createNewSigningKey differ in protection level and
     destroy-scheduled duration only) -/
